@@ -794,5 +794,8 @@ for _p in ("C02", "C04"):
     PROPS[_p]["rules"] = PROPS[_p]["rules"] + [rules_cache.rule_chunk_coord_in_grid]
     PROPS[_p]["explanation"] += " (GRIDBOUND) a caller-supplied chunk coordinate vector is compared with num_chunks before a chunk number is computed from it."
 
+PROPS["C11"]["rules"] = PROPS["C11"]["rules"] + [rules_ann.rule_listing_end_latched]
+PROPS["C11"]["explanation"] += " (LISTEND) the end of a DFAN file-annotation listing is latched in a flag that every read from the saved next-reference tests."
+
 NOT_APPLICABLE = {}
 
